@@ -95,7 +95,17 @@ class Program:
                 continue
             if sigs is None:
                 sigs = alpha.signatures(mm.tree for mm in self.modules.values())
-            ren = alpha.normalise(name, m.tree, self._raw.get(name), sigs)
+            import copy as _copy
+            backup = _copy.deepcopy(m.tree)
+            try:
+                ren = alpha.normalise(name, m.tree, self._raw.get(name), sigs)
+                for n_ in ast.walk(m.tree):           # every node the passes created carries a position
+                    if isinstance(n_, (ast.stmt, ast.expr)) and not hasattr(n_, "lineno"):
+                        ast.fix_missing_locations(m.tree)
+                        break
+            except Exception as e:                    # a normalisation must never be the reason a check cannot run: analyse the module as written
+                m.tree = backup
+                ren = {"<module>": {"<normalisation skipped>": f"{type(e).__name__}: {e}"[:200]}}
             if ren:
                 self.renamed[name] = ren
         self._raw = {}
